@@ -25,17 +25,27 @@ def list_instances():
         ("add", "add_contract", "list::VecList::add", "add appends at the tail under a fresh handle, earlier elements keep order/handle/data; a full list refuses and is unchanged; invariant restored"),
         ("remove_at", "remove_at_contract", "list::VecList::remove_at", "for every handle value: removes exactly the addressed element iff the slot is live and the version matches, order of the others unchanged, else nothing changes; invariant restored"),
         ("remove_first", "remove_first_contract", "list::VecList::remove_first,list::VecList::find_first", "for every predicate (symbolic truth table): removes exactly the oldest matching element and returns its data, None and unchanged iff none matches; invariant restored"),
-        ("remove_all", "remove_all_contract", "list::VecList::remove_all", "for every predicate: asks it once per element oldest first, removes exactly the matching ones, survivors keep order/handle/data, returns the number removed; invariant restored"),
         ("iter", "iter_contract", "list::VecList::iter,list::ListIterator::next,list::VecList::find_first,list::VecList::len,list::VecList::is_full", "iteration yields exactly the live elements oldest first with their handles; find_first returns the oldest match; nothing changes"),
     ]
     out = []
-    for cap, tier in ((3, "quick"), (2, "thorough"), (4, "thorough")):
+    meta = '    // @harness ids=C03,C01 tier=%s kind=bounded bound="capacity=%d (storage length %d, free-stack length %d%s; all contents, links, versions symbolic under the invariant)" units=%s timeout=250 note="%s"'
+    for cap in (3, 2, 4):
         for (l, f) in pairs(cap):
             for short, fn, units, note in ops:
+                # quick tier: capacity 3 with fully allocated storage (sizes 3,2,1,0); add also for every partially allocated storage
+                tier = "quick" if cap == 3 and (l == 3 or short == "add") else "thorough"
                 units_full = ",".join(P + u for u in units.split(","))
                 name = "vk_c03_list_%s_c%d_l%d_f%d" % (short, cap, l, f)
-                out.append('    // @harness ids=C03,C01 tier=%s kind=bounded bound="capacity=%d (storage length %d, free-stack length %d; all contents, links, versions symbolic under the invariant)" units=%s timeout=200 note="%s"' % (tier, cap, l, f, units_full, note))
+                out.append(meta % (tier, cap, l, f, "", units_full, note))
                 out.append("    list_harness!(%s, %s, %d, %d, %d);" % (name, fn, cap, l, f))
+            if cap == 4:
+                continue
+            for mask in range(1 << (l - f)):
+                tier = "quick" if cap == 3 and l == 3 else "thorough"
+                name = "vk_c03_list_remove_all_c%d_l%d_f%d_m%d" % (cap, l, f, mask)
+                out.append(meta % (tier, cap, l, f, ", predicate answers = bits of %d" % mask, P + "list::VecList::remove_all",
+                                   "the predicate is asked once per element oldest first; exactly the elements it accepts are removed, survivors keep order/handle/data; returns the number removed; invariant restored (all 2^size answer patterns enumerated)"))
+                out.append("    list_harness!(%s, remove_all_contract, %d, %d, %d, %d);" % (name, cap, l, f, mask))
     return "\n".join(out) + "\n"
 
 
